@@ -31,6 +31,10 @@ type typeDictionary struct {
 	dict map[Node]map[string]*Typedef
 	// identities contains a dictionary of resolved identities.
 	identities identityDictionary
+	// run counts the Process calls: a type resolved by an earlier run is
+	// resolved again, since the modules loaded in between (a module that
+	// was missing, a newer revision) may change what its name denotes.
+	run int
 }
 
 func newTypeDictionary() *typeDictionary {
@@ -145,7 +149,7 @@ func (d *typeDictionary) resolveTypedefs() []error {
 func (t *Typedef) resolve(d *typeDictionary) []error {
 	// If we have no parent we are a base type and
 	// are already resolved.
-	if t.Parent == nil || t.YangType != nil {
+	if t.Parent == nil || (t.YangType != nil && t.run == d.run) {
 		return nil
 	}
 	if t.resolving {
@@ -153,6 +157,7 @@ func (t *Typedef) resolve(d *typeDictionary) []error {
 	}
 	t.resolving = true
 	defer func() { t.resolving = false }()
+	t.YangType, t.run = nil, d.run
 
 	if errs := t.Type.resolve(d); len(errs) != 0 {
 		return errs
@@ -192,11 +197,12 @@ func (t *Typedef) resolve(d *typeDictionary) []error {
 // resolve resolves Type t, as well as the underlying typedef for t.  If t
 // cannot be resolved then one or more errors are returned.
 func (t *Type) resolve(d *typeDictionary) (errs []error) {
-	if t.YangType != nil {
+	if t.YangType != nil && t.run == d.run {
 		// Already resolved: report again what was found then, so that
 		// every Process of the same set returns the same errors.
 		return t.resolveErrs
 	}
+	t.YangType, t.run = nil, d.run
 
 	// If t.Name is a base type then td will not be nil, otherwise
 	// td will be nil and of type *Typedef.
